@@ -1,9 +1,10 @@
 #!/bin/bash
-# tools/process_seeded.sh Cxx [extra checks…]: verify tests, confirm demo, run checks for the sub-agent output in /tmp/mut/out-Cxx
+# tools/process_seeded.sh Cxx [extra checks…]: verify tests, confirm demo, run checks for the sub-agent output in /tmp/mut/out${R}-Cxx
 c=$1; shift
+R=${R:-}
 cd /verif
 echo "=== $c"
-tools/verify_seeded.sh /tmp/mut/out-$c/patch.diff
-ex=$(ls /tmp/mut/out-$c/*.rs | head -1 | xargs basename | sed 's/\.rs$//')
-tools/confirm_demo.sh /tmp/mut/wt-$c /tmp/mut/out-$c/patch.diff $ex
-tools/try_seeded.sh /tmp/mut/out-$c/patch.diff $c "$@" 2>&1 | tail -14
+tools/verify_seeded.sh /tmp/mut/out$R-$c/patch.diff
+ex=$(ls /tmp/mut/out$R-$c/*.rs | head -1 | xargs basename | sed 's/\.rs$//')
+tools/confirm_demo.sh /tmp/mut/wt$R-$c /tmp/mut/out$R-$c/patch.diff $ex
+tools/try_seeded.sh /tmp/mut/out$R-$c/patch.diff $c "$@" 2>&1 | tail -14
